@@ -124,6 +124,14 @@ NoAwardOutsideBegin(pre, post, a, res) ==
 SupplyMoves(pre, post, a, res) ==
   a.a # "InitChain" => post.supply - pre.supply = (post.minted - pre.minted) - (post.burned - pre.burned)
 
+\* C12 one level up (what a reader sees at a version is what was committed at it): a query for the latest
+\* committed height gets the answer it got right after that Commit, whatever the block in progress has written
+QAnswer(q, kind) == LET S == {i \in 1..Len(q) : q[i][1] = kind} IN IF S = {} THEN "" ELSE q[CHOOSE i \in S : TRUE][2]
+QueryAnswersCommitted(pre, post, a, res) ==
+  (a.a = "Query" /\ Len(pre.qans) > 0) =>
+     LET want == QAnswer(pre.qans, a.kind)
+     IN want = "" \/ (IF res.class = "ro-panic" THEN want = "panic" ELSE res.qd = want)
+
 \* C08: "slashed and jailed for downtime at exactly the first block ...": whether a validator loses
 \* stake in a BeginBlock that carries no evidence against it and finds no burn queued for it is
 \* decided by its window alone - the real transition must agree with the specification's step from
@@ -148,6 +156,7 @@ ActionProps(pre, post, a, res, pd) ==
      << "C10.NoAwardOutsideBegin", NoAwardOutsideBegin(pre, post, a, res) >>,
      << "C02.SupplyMoves", SupplyMoves(pre, post, a, res) >>,
      << "C12.CrashRecoversCommitted", CrashRecoversCommitted(pre, post, a, res) >>,
+     << "C12.QueryAnswersCommitted", QueryAnswersCommitted(pre, post, a, res) >>,
      << "C08.DowntimeSlashExactlyWhenDue", DowntimeSlashExactlyWhenDue(pre, post, a, pd) >> >>
 
 StateProps(s) ==
@@ -211,7 +220,8 @@ TraceNext ==
               div == div0 \cup div1 \cup div2 \cup div3 \cup div4 \cup div5
               bad == Failed(StateProps(post2)) \cup Failed(ActionProps(pre, post2, a, e.res, pred0)) \cup tmbad
               \* the real state at a Commit is what a crashed node must come back with
-              post3 == IF a.a = "Commit" /\ MaxCrashes > 0 THEN [post2 EXCEPT !.snap = << Strip(post2) >>] ELSE post2
+              postq == IF a.a = "Commit" THEN [post2 EXCEPT !.qans = e.res.qans] ELSE post2
+              post3 == IF a.a = "Commit" /\ MaxCrashes > 0 THEN [postq EXCEPT !.snap = << Strip(postq) >>] ELSE postq
           IN /\ st' = post3
              /\ (IF div # {} \/ bad # {} THEN PrintT("DIV " \o ToJson([l |-> l, b |-> e.b, div |-> div, bad |-> bad, note |-> pred0.halt])) ELSE TRUE)
 
